@@ -29,6 +29,11 @@ func runC03(c *Ctx) {
 		return
 	}
 	const H = "blockchain.BlockHeader"
+	// the aggregate commit a block carries is one of its validity rules: the verifier the block
+	// verifier delegates to accepts only within the stated bounds (the rules of C06.R1)
+	if vac := c.Anchor("pkg/consensus.(*Executer).verifyAggregateCommit"); vac != nil {
+		checkAggregateCommitVerifier(c, "C03.A", vac)
+	}
 	vf := factsOf(verify)
 
 	// ---- V: reject-edge table in verifyBlock
